@@ -300,7 +300,9 @@ func (ts *tokenScanner) Cur() Token {
 		tok.Type = IDENT
 		// strip quotes
 		tok.Text = ts.s.TokenText()
-		tok.Text = tok.Text[1 : len(tok.Text)-1]
+		if len(tok.Text) >= 2 {
+			tok.Text = tok.Text[1 : len(tok.Text)-1]
+		}
 	default:
 		tok.Text = ts.s.TokenText()
 		if kw, isKw := keywords[strings.ToUpper(ts.s.TokenText())]; isKw {
@@ -319,7 +321,7 @@ func (ts *tokenScanner) Cur() Token {
 			}
 		} else {
 			tok.Type = STR
-			if ts.cur == String {
+			if ts.cur == String && len(tok.Text) >= 2 {
 				// strip quotes
 				tok.Text = tok.Text[1 : len(tok.Text)-1]
 			}
